@@ -8,6 +8,9 @@ Main statements: `sector_covers`, `orbits_disjoint`, `inFirstThird_false_iff`, `
 Below block level (pin lattices, their owners, pins; Model/Sym3.lean `Sub`): `copyBlock_pins`, `convert_copies_below`,
 `subLoop_keys`, `subStep_extends`, `no_shared_node`, `clean_run`, `sources_untouched_run`, `convert_entries_visible`,
 `pin_global_turn_120`, `pin_global_turn_240` (Euclidean: global pin positions of a copy = the source's rotated).
+Boundary data / orientation of copies of pre-rotated sources: `copyBlock_boundary`, `rotBoundary_two`, `rotBoundary_four`,
+`convert_copies_boundary`. Redundant calls on the same changers: `redundant_call_noop`, `restore_convert_convert`,
+`restore_restore`, `removeEdge_removeEdge`, `addEdge_again`.
 Value level of the centre scaling: `scaleVal_down_up`, `scaleBlockVals_down_up`, `scaleVal_up_sum`.
 -/
 import ArmiVerif.Model.Sym3
@@ -1328,9 +1331,9 @@ theorem convert_entries_visible (s : State) (sub : Sub) (hf : s.full = false) (h
 /-! #### non-vacuity: `exCore` with pin lattices on the off-centre assemblies -/
 
 def exSub : Sub :=
-  [(0, [⟨(0, 0), none, none, true, []⟩]),
-   (1, [⟨(1, 0), some (1, 100), some (1, 0), true, [(1, 0), (2, -1)]⟩]),
-   (2, [⟨(2, 0), some (2, 100), some (2, 0), true, [(0, 3)]⟩, ⟨(2, 1), none, none, true, []⟩])]
+  [(0, [⟨(0, 0), none, none, true, [], 0, []⟩]),
+   (1, [⟨(1, 0), some (1, 100), some (1, 0), true, [(1, 0), (2, -1)], 60, [[1, 2, 3, 4, 5, 6], []]⟩]),
+   (2, [⟨(2, 0), some (2, 100), some (2, 0), true, [(0, 3)], 0, []⟩, ⟨(2, 1), none, none, true, [], 0, []⟩])]
 
 example : Clean exSub ∧ FreshTable exSub exCore.next := by
   constructor
@@ -1343,14 +1346,16 @@ example : Clean exSub ∧ FreshTable exSub exCore.next := by
   · intro e he; simp [exSub] at he; rcases he with rfl | rfl | rfl <;> decide
 
 /-- the copies of assembly 1 (cell (2,−1), on the 0° line), numbered 10 and 11: own block, own lattice owned by that
-block, pins (1,0), (2,−1) turned to (−1,1), (−1,2) [turn 2] and (0,−1), (−1,−1) [turn 4]; assembly 1 itself is as
+block, pins (1,0), (2,−1) turned to (−1,1), (−1,2) [turn 2] and (0,−1), (−1,−1) [turn 4]; the source was at 60° already:
+the copies are at 180° / 300° and its corner vector is shifted by 2 / 4 places (not by 3 / 5); assembly 1 itself is as
 before after any history -/
 example : subCopies exSub ⟨1, (2, -1), 101, 0, [5], [1 / 2]⟩ 10 1 (sym3 (2, -1)) =
-      [(10, [⟨(10, 0), some (10, 100), some (10, 0), true, [(-1, 1), (-1, 2)]⟩]),
-       (11, [⟨(11, 0), some (11, 100), some (11, 0), true, [(0, -1), (-1, -1)]⟩])] := by decide
+      [(10, [⟨(10, 0), some (10, 100), some (10, 0), true, [(-1, 1), (-1, 2)], 180, [[5, 6, 1, 2, 3, 4], []]⟩]),
+       (11, [⟨(11, 0), some (11, 100), some (11, 0), true, [(0, -1), (-1, -1)], 300, [[3, 4, 5, 6, 1, 2], []]⟩])] := by
+  decide +kernel
 
 example : subOf (prun (exCore, exSub) [.convert, .restore, .addEdge, .removeEdge]).2 1 = subOf exSub 1 :=
-  sources_untouched_run _ _ 1 ⟨(1, [⟨(1, 0), some (1, 100), some (1, 0), true, [(1, 0), (2, -1)]⟩]), by simp [exSub], rfl⟩
+  sources_untouched_run _ _ 1 ⟨(1, [⟨(1, 0), some (1, 100), some (1, 0), true, [(1, 0), (2, -1)], 60, [[1, 2, 3, 4, 5, 6], []]⟩]), by simp [exSub], rfl⟩
 
 example : ∀ o ∈ objsOf (prun (exCore, exSub) [.addEdge, .convert]).2 10,
     o ∉ objsOf (prun (exCore, exSub) [.addEdge, .convert]).2 1 :=
@@ -1475,5 +1480,77 @@ theorem scaleVal_up_sum (v : PVal) : valSum (scaleVal true v) = 3 * valSum v := 
 example : scaleBlockVals true [.none, .list [1 / 2, 3], .scalar 5, .array [1]] =
     [.none, .list [3 / 2, 9], .scalar 15, .array [3]] := by decide +kernel
 
+
+/-! #### boundary data and orientation of copies (sources rotated before the conversion) -/
+
+/-- **a copy's orientation is the source's plus the copy's own turn, and every corner / edge vector is the source's
+pivoted by the steps of that turn alone** - the source's previous orientation does not enter -/
+theorem copyBlock_boundary (n r : Int) (b : PBlock) :
+    (copyBlock n r b).orient = b.orient + r * 60 ∧ (copyBlock n r b).bnd = b.bnd.map (rotBoundary r) := ⟨rfl, rfl⟩
+
+/-- the pivot of `convert`'s first copy (120°): new[m] = old[m − 2] -/
+theorem rotBoundary_two (a0 a1 a2 a3 a4 a5 : Rat) :
+    rotBoundary 2 [a0, a1, a2, a3, a4, a5] = [a4, a5, a0, a1, a2, a3] := by
+  simp [rotBoundary, pivot, pyFrom, pyTo]
+
+/-- the pivot of the second copy (240°): new[m] = old[m − 4] -/
+theorem rotBoundary_four (a0 a1 a2 a3 a4 a5 : Rat) :
+    rotBoundary 4 [a0, a1, a2, a3, a4, a5] = [a2, a3, a4, a5, a0, a1] := by
+  simp [rotBoundary, pivot, pyFrom, pyTo]
+
+/-- vectors that are not 6 long (unset `[]`, other lengths) are left alone -/
+theorem rotBoundary_other (r : Int) (v : List Rat) (h : v.length ≠ 6) : rotBoundary r v = v := by
+  simp [rotBoundary, h]
+
+/-- **the two copies of an off-centre source, block by block**: orientation + 120° / + 240°, boundary vectors pivoted
+by 2 / 4 steps (with `convert_copies_below` for where they sit and `copyBlock_pins` for the pins) -/
+theorem convert_copies_boundary (sub : Sub) (a : Assem) (n : Int) (h : isCentre a.cell = false) :
+    ∀ e ∈ subCopies sub a n 1 (sym3 a.cell), ∃ r : Int, (r = 2 ∨ r = 4) ∧
+      e.2.map (fun b => (b.orient, b.bnd)) =
+        (subOf sub a.id).map (fun b => (b.orient + r * 60, b.bnd.map (rotBoundary r))) := by
+  intro e he
+  rw [(convert_copies_below sub a n h).1] at he
+  simp only [List.mem_cons, List.not_mem_nil, or_false] at he
+  rcases he with rfl | rfl
+  · exact ⟨2, Or.inl rfl, by simp [copyBlock]⟩
+  · exact ⟨4, Or.inr rfl, by simp [copyBlock]⟩
+
+/-! #### redundant calls on the same changer objects -/
+
+/-- **a call on a core that is already full changes nothing, the changer's bookkeeping included** (`convAdded`,
+`convList`, `edgeAdded` are fields of the state): `convert` returns at once, `addEdgeAssemblies` and
+`removeEdgeAssemblies` return at once; below block level nothing is added -/
+theorem redundant_call_noop (s : State) (sub : Sub) (op : Op) (hf : s.full = true) (hop : op ≠ .restore) :
+    pstep (s, sub) op = (s, sub) := by
+  cases op with
+  | restore => exact absurd rfl hop
+  | convert => simp [pstep, step, subStep, convert_of_full s hf, subConvert, hf]
+  | addEdge => simp [pstep, step, subStep, addEdge_of_full s hf, subAddEdge, hf]
+  | removeEdge => simp [pstep, step, subStep, removeEdge_of_full s hf]
+
+/-- **convert twice, then one restore, is convert once and restore**: the second convert is the no-op above, so the
+restore still finds the list of parameters it has to scale back and the assemblies it has to take out -/
+theorem restore_convert_convert (s : State) (hf : s.full = false) :
+    restore (convert (convert s)) = restore (convert s) := by
+  rw [convert_of_full (convert s) (convert_full s hf)]
+
+/-- a second `restorePreviousGeometry` on the same changer finds nothing to undo -/
+theorem restore_restore (s : State) : restore (restore s) = restore s := by
+  unfold restore
+  split <;> simp
+
+/-- a second `removeEdgeAssemblies` finds no edge assembly -/
+theorem removeEdge_removeEdge (s : State) : removeEdge (removeEdge s) = removeEdge s := by
+  unfold removeEdge removeEdgeCore
+  cases hf : s.full <;> simp [hf, List.filter_filter]
+
+/-- a second `addEdgeAssemblies` through a changer that added edge assemblies is skipped -/
+theorem addEdge_again (s : State) (h : s.edgeAdded ≠ []) : addEdge s = s := addEdge_noop s (Or.inr h)
+
+example : restore (convert (convert exCore)) = restore (convert exCore) ∧
+    (restore (convert (convert exCore))).kids = base exCore :=
+  ⟨restore_convert_convert exCore (by decide),
+   by rw [restore_convert_convert exCore (by decide)]
+      exact (restore_convert exCore (by decide) (by decide) (by decide) (by decide) (by decide)).1⟩
 
 end ArmiVerif.Sym3
